@@ -68,6 +68,9 @@ InitC23 ==
   /\ last = NoStep /\ steps = 0
 A_Kill == Tick /\ \E c \in Id, p \in Provider : Kill(c, p)
 A_ShutDown == Tick /\ \E c \in Id, p \in Provider : ShutDown(c, p)
-NextC23 == A_Kill \/ A_ShutDown \/ A_Reward
+\* a delegate takes his (slashed) stake out of a live or a dead provider: after the last one has left, the
+\* dead stake pool has no delegate pool any more and is still addressed by reward payments (A_Reward)
+A_Leave == Tick /\ \E d \in Delegates, p \in Provider : HasPool(p, d) /\ Unlock(d, p)
+NextC23 == A_Kill \/ A_ShutDown \/ A_Reward \/ A_Leave
 SpecC23 == InitC23 /\ [][NextC23]_mcvars
 =============================================================================
